@@ -4,6 +4,7 @@
 import Resonate.Proofs.CbInv
 import Resonate.Proofs.SysInv
 import Resonate.Proofs.SysDb
+import Resonate.Properties.C08
 namespace Resonate.C05
 open Resonate SqlSpec
 
@@ -162,6 +163,25 @@ theorem colliding_completion_never_commits_F2 (db db' : Db) (c : UpdatePromiseCm
   obtain ⟨e, he⟩ := insert_collision_fails d ⟨c.id, t2⟩ _ db2.tasks db2.seqT ⟨cb, hsel, u, hu, huid⟩
   rw [he] at e3
   cases e3
+
+/-- **Finding F20 (known) as a theorem about the model.**  The completion block is written unconditionally.  When a second
+    block for the same promise is executed after a first one (two requests, or a request and the sweep, had both read the
+    promise while it was pending), every registration whose task has the completed promise as its root — every SUBSCRIPTION:
+    the root of a notification is the awaited promise — ends up as a task in state COMPLETED: the first block creates it
+    (`conversion`: state init), the second block's promise update changes no row but its `CompleteTasks`, by root promise id,
+    finishes it (`C08.finished_together`).  The subscriber is never notified.  For every database, both dialects. -/
+theorem second_block_finishes_notifications_F20 (db db1 db2 : Db) (c c2 : UpdatePromiseCmd) (hc : c2.id = c.id) (t1 t2 t1' t2' : Int)
+    (rs rs2 : List Res)
+    (h1 : db.execTx (defs d) [.updatePromise c, .completeTasks ⟨c.id, t1⟩, .createTasks ⟨c.id, t2⟩, .deleteCallbacks ⟨c.id⟩] = .ok (db1, rs))
+    (h2 : db1.execTx (defs d) [.updatePromise c2, .completeTasks ⟨c2.id, t1'⟩, .createTasks ⟨c2.id, t2'⟩, .deleteCallbacks ⟨c2.id⟩] = .ok (db2, rs2)) :
+    ∀ cb ∈ db.callbacks, cb.promiseId = c.id → cb.rootPromiseId = c.id →
+      ∃ task ∈ db2.tasks, task.id = cb.id ∧ task.state = 8 ∧ task.completedOn = some t1' := by
+  intro cb hcb hp hroot
+  obtain ⟨_, hconv, _⟩ := conversion d db db1 c t1 t2 rs h1
+  obtain ⟨task, hmem, hid, _, _, _, hr, hst, _, _⟩ := hconv cb hcb hp
+  obtain ⟨i, hi⟩ := List.getElem?_of_mem hmem
+  have := C08.finished_together d db1 db2 c2 t1' t2' rs2 h2 i task hi (by rw [hr, hroot, hc]) (.inl hst)
+  exact ⟨_, List.mem_of_getElem? this, hid, rfl, rfl⟩
 
 /-- **Invariant, every reachable state.** From an empty database, along ANY run — every interleaving of
     registrations with every completion path (explicit, lazy time-out, sweep), both orders inside one
